@@ -68,7 +68,7 @@ def monitored(name):
 
 
 def cases(tier, seed):
-    n = 40 if tier == "quick" else 450
+    n = 40 if tier == "quick" else 1200
     out = []
     for name in zoo.ALL:
         cost = {"PCACD": 6, "KdqTreeStreaming": 3, "LinearFourRates": 3, "KdqTreeBatch": 3, "HDDDM": 2, "CDBD": 2, "NNDVI": 2}.get(name, 1)
